@@ -305,7 +305,7 @@ func init() {
 		Assumptions: []string{"as C01: ed25519 trusted, undecodable mutants only carry the no-panic obligation"},
 		NumCases: func(tier string) int {
 			if tier == "thorough" {
-				return 5000
+				return 16000
 			}
 			return 320
 		},
@@ -331,7 +331,7 @@ func init() {
 		Assumptions: []string{"the seeded stream never repeats 32-byte windows"},
 		NumCases: func(tier string) int {
 			if tier == "thorough" {
-				return 8000
+				return 80000
 			}
 			return 400
 		},
